@@ -283,7 +283,7 @@ def rule_lock_span(fx, col):
         for bb, t in b.calls(include_cleanup=False):
             if U.callee_name(t) in ('expect', 'unwrap') and rd and ('call', rd[0]) in b.origins(t['args'][0]):
                 gl = t['dest']['local']
-        drops = [bb for bb, t in b.drops(include_cleanup=False) if t['place']['local'] == gl]
+        drops = b.releases(gl) if gl is not None else []
         ok = bool(rd) and bool(cell) and bool(inc) and gl is not None and all(b.dominates(rd[0], s.bb) for s in cell) and \
             bool(drops) and all(b.dominates(i, d) for i in inc for d in drops)
         col.add('LOCK-SPAN', 'RwLock load|read lock spans read and inc', ok, 'read() at %s precedes the cell read; the guard is dropped at %s after the inc' % ([b.loc(x) for x in rd], [b.loc(x) for x in drops]))
@@ -298,7 +298,7 @@ def rule_lock_span(fx, col):
         ok = len(wr) == 1 and bool(cell)
         if ok:
             gl = wr[0][1]['dest']['local']
-            drops = [bb for bb, t in b.drops(include_cleanup=False) if t['place']['local'] == gl]
+            drops = b.releases(gl)
             rel = [bb for bb, t in b.calls(include_cleanup=False) if U.callee_name(t) in ('from_ptr', 'inc')]
             after = set()
             for d in drops:
@@ -376,8 +376,11 @@ def rule_cache_shape(fx, col):
         col.add('CACHE-SHAPE', 'MapCache::load|projection of this load', ok, 'the projection is applied to the reference returned by this very inner.load() and its result is returned (no memoised projection)')
     ca = _body(fx, '<cache::Cache as cache::Access>::load')
     if col.anchor('CACHE-SHAPE', 'Access for Cache::load', ca is not None):
-        il = [(bb, t) for bb, t in ca.calls(include_cleanup=False) if U.callee_name(t) == 'load']
-        col.add('CACHE-SHAPE', 'Access for Cache::load|delegates', len(il) == 1, 'goes through Cache::load (hence through revalidate)')
+        # either through Cache::load, or revalidate() spelled out on every path before the reference is produced
+        il = [bb for bb, t in ca.calls(include_cleanup=False) if U.callee_name(t) in ('load', 'revalidate') and t['callee'].get('krate') == 'arc_swap']
+        rets = [x for x in range(ca.n) if ca.term(x)['k'] == 'return']
+        ok = len(il) == 1 and ca.postdominates(il[0], 0) and all(ca.dominates(il[0], r) for r in rets)
+        col.add('CACHE-SHAPE', 'Access for Cache::load|delegates', ok, 'goes through Cache::load / revalidate() on every path')
 
 
 # --------------------------------------------------------------------------------------------
@@ -494,9 +497,24 @@ def rule_serde_shape(fx, col):
     calls = [(bb, t) for bb, t in d.calls(include_cleanup=False)]
     de = [(bb, t) for bb, t in calls if U.callee_name(t) == 'deserialize' and t['callee'].get('self_is_param')]
     fr = [(bb, t) for bb, t in calls if U.callee_name(t) in ('from', 'new', 'with_strategy') and t['callee'].get('krate') in ('arc_swap', 'core') and 'ArcSwapAny' in (t['callee'].get('pretty') or '')]
-    ok = len(de) == 1 and len(fr) == 1
-    col.add('SERDE-SHAPE', 'deserialize|T::deserialize then From', ok, '%d T::deserialize call(s), %d container constructor call(s)' % (len(de), len(fr)))
-    if ok:
+    is_ctor = lambda t: U.callee_name(t) in ('from', 'new', 'with_strategy') and t['callee'].get('krate') in ('arc_swap', 'core') and 'ArcSwapAny' in (t['callee'].get('pretty') or '')
+    via_map = None
+    if len(de) == 1 and not fr:
+        # `T::deserialize(d).map(|v| <constructor>(v ..))`: the constructor sits in a closure handed to Result::map on the result
+        for cbb, ci, cb in U.closures_built(fx.lib, d):
+            cfr = [(bb, t) for bb, t in cb.calls(include_cleanup=False) if is_ctor(t)]
+            mp = [(bb, t) for bb, t in calls if U.callee_name(t) == 'map' and 'result::Result' in t['callee'].get('path', '') and
+                  d.origins(t['args'][0]) == {('call', de[0][0])} and t['dest']['local'] == 0]
+            if len(cfr) == 1 and len(mp) == 1 and cb.origins(cfr[0][1]['args'][0]) == {('arg', 2)}:
+                extra = [U.callee_name(t) for bb, t in cb.calls(include_cleanup=False) if U.callee_name(t) in ('clone', 'load', 'load_full', 'inc', 'store', 'swap')]
+                via_map = (cfr[0], extra)
+    ok = len(de) == 1 and (len(fr) == 1 or via_map is not None)
+    col.add('SERDE-SHAPE', 'deserialize|T::deserialize then From', ok, '%d T::deserialize call(s), %d container constructor call(s)%s' % (len(de), len(fr), ' (constructor inside Result::map)' if via_map else ''))
+    if ok and via_map is not None:
+        col.add('SERDE-SHAPE', 'deserialize|the deserialized value goes in', True, 'T::deserialize(deserializer).map(|v| constructor(v, ..))')
+        extra = via_map[1] + [U.callee_name(t) for bb, t in calls if U.callee_name(t) in ('clone', 'load', 'load_full', 'inc', 'store', 'swap')]
+        col.add('SERDE-SHAPE', 'deserialize|single reference', not extra, 'no clone / load / store on the way: %s' % extra)
+    elif ok:
         thr = lambda t: [0] if U.callee_name(t) in ('branch',) else None
         src = d.origins(fr[0][1]['args'][0], through_calls=thr)
         col.add('SERDE-SHAPE', 'deserialize|the deserialized value goes in', src == {('call', de[0][0])}, 'Self::from(T::deserialize(deserializer)?)')
@@ -549,7 +567,7 @@ def rule_swap_shape(fx, col):
         if ok:
             col.add('SWAP-SHAPE', 'swap|installs the new value', _call_bbs(b, rmw[0].arg(1)) == {ip[0][0]} and b.origins(ip[0][1]['args'][0]) == {('arg', 2)},
                     'the value written is into_ptr(new)')
-            col.add('SWAP-SHAPE', 'swap|returns what the RMW took out', _call_bbs(b, fp[0][1]['args'][0]) == {rmw[0].bb} and fp[0][1]['dest']['local'] == 0,
+            col.add('SWAP-SHAPE', 'swap|returns what the RMW took out', _call_bbs(b, fp[0][1]['args'][0]) == {rmw[0].bb} and (fp[0][1]['dest']['local'] == 0 or b.origins(0) == {('call', fp[0][0])}),
                     'the result is from_ptr(<value returned by the atomic swap>): the immediate predecessor in the cell\'s modification order')
     for fn, rel in (('arc_swap::ArcSwapAny::into_inner', ('from_ptr',)), ('<ArcSwapAny as std::ops::Drop>::drop', ('dec', 'from_ptr'))):
         b = _body(fx, fn)
